@@ -388,10 +388,34 @@ def o_trace_fresh(ctx, case):
     return None
 
 
+_FORM_KEYS = ('fp_form', 'scribble', 'reuse_fp')
+
+
+def o_arg_forms(ctx, case):
+    """the glue around the core is invisible: the same history gives bit-identical answers whether the caller hands in a
+    fresh contiguous fit-parameter array, one re-used instance, a strided view, a read-only array or an explicit
+    src_params_recarray, and whether or not the caller overwrites the gradient array it was handed out"""
+    plain = dict(case['spec'])
+    for k in _FORM_KEYS:
+        plain.pop(k, None)
+    (ra, fa) = run_history(case['spec'], case['d0'], case['s0'], case['ops'], case['final'])
+    (rb, fb) = run_history(plain, case['d0'], case['s0'], case['ops'], case['final'])
+    strip = lambda r: {k: v for k, v in r.items() if k in ('llh', 'grads', 'ratio', 'grad')} if isinstance(r, dict) else r  # noqa
+    forms = {k: case['spec'].get(k) for k in _FORM_KEYS}
+    for i, (a, b) in enumerate(zip(ra, rb)):
+        if not _same(strip(a), strip(b)):
+            return ('operation %d (%s) of the history %s gives %s with the caller-side forms %s but %s with plain new arrays; '
+                    'configuration %s' % (i, case['ops'][i], case['ops'], _short(strip(a)), forms, _short(strip(b)), plain))
+    if not _same(fa, fb):
+        return ('%s after the history %s gives %s with the caller-side forms %s but %s with plain new arrays; configuration %s'
+                % (case['final'], case['ops'], _short(fa), forms, _short(fb), plain))
+    return None
+
+
 def o_cache_onoff(ctx, case):
     """PDF value caching switched on/off is invisible (every operation of the history and the final query)"""
-    spec_on = dict(case['spec'], cache=True)
-    spec_off = dict(case['spec'], cache=False)
+    spec_on = dict(case['spec'], cache=True, cache_bkg=True)
+    spec_off = dict(case['spec'], cache=False, cache_bkg=False)
     (ron, fon) = run_history(spec_on, case['d0'], case['s0'], case['ops'], case['final'])
     (roff, foff) = run_history(spec_off, case['d0'], case['s0'], case['ops'], case['final'])
     strip = lambda r: {k: v for k, v in r.items() if k in ('llh', 'grads', 'ratio', 'grad')} if isinstance(r, dict) else r  # noqa
@@ -415,7 +439,7 @@ def _diff_keys(a, b):
     return sorted(k for k in set(a) | set(b) if a.get(k) != b.get(k))
 
 
-def o_cache_snapshot(ctx, case):
+def o_cache_snapshot(ctx, case, collect=None):
     """byte snapshots around evaluations:
       (1) inputs (spline / grid tables, the tables of parameter-free factors) are never written;
       (2) an evaluate within a trial does not alter the array a parameter-free leaf hands out;
@@ -423,7 +447,9 @@ def o_cache_snapshot(ctx, case):
           last-evaluation cache byte-identical.
     Diagnostic only (counted, not a verdict — a benign extra or lazily cleared cache entry is legal): (4) the last-evaluation
     caches and pd cache entries equal those of a freshly built object graph after the same evaluate.
-    Private attributes are read through cache_fixtures._get: a renamed one drops its key (noted in the evidence)."""
+    Private attributes are read through cache_fixtures._get: a renamed one drops its key (noted in the evidence).
+    `collect` (a list): the per-operation results and the result of the final evaluate are appended, so that the caller can
+    use this very run for the model correspondence as well (one object graph instead of two)."""
     if case['final'][0] not in ('eval', 'eval_grad2'):
         return None
     cf = _cf()
@@ -438,8 +464,12 @@ def o_cache_snapshot(ctx, case):
         stored = None if G.stub is None or op[0] != 'E' else cf._b(G.stub._stored)
         svc = cf.service_snapshot(G) if op[0] in ('G', 'H') else None
         try:
-            apply_op(G, op)
-        except Exception:  # noqa  (a raising operation is part of the history)
+            r_op = apply_op(G, op)
+            if collect is not None:
+                collect.append(r_op)
+        except Exception as e:  # noqa  (a raising operation is part of the history)
+            if collect is not None:
+                collect.append('EXC:%s: %s' % (type(e).__name__, str(e)[:120]))
             continue
         if svc is not None and svc != cf.service_snapshot(G):
             return ('operation %d %s of the history %s changed what the weight services hand out %s (a read-only query wrote '
@@ -450,7 +480,11 @@ def o_cache_snapshot(ctx, case):
                     '(a consumer wrote into its input); configuration %s' % (i, op, case['ops'], spec))
     try:
         r1 = cf.op_evaluate(G, ns, xs)
-    except Exception:  # noqa  (raised-ness of the final query is judged by fresh_vs_used)
+        if collect is not None:
+            collect.append(r1)
+    except Exception as e:  # noqa  (raised-ness of the final query is judged by fresh_vs_used)
+        if collect is not None:
+            collect.append('EXC:%s: %s' % (type(e).__name__, str(e)[:120]))
         return None
     snap1 = cf.cache_snapshot(G)
     pd1 = cf.pd_cache_snapshot(G)
@@ -547,7 +581,7 @@ def _request(case, variant):
     bkg = ['%d:%d:%s' % (d_, s_, flist(cf.world_bkg(spec, d_, s_))) for (d_, s_) in sorted(ds)]
     f = spec['fields']
     cfgbits = ''.join('1' if b else '0' for b in (f == 'all', f == 'all', f in ('static', 'all'), spec['cache'],
-                                                  spec['interp'] == 'parabola'))
+                                                  spec['interp'] == 'parabola', spec.get('cache_bkg', spec['cache'])))
     vbits = ''.join('1' if b else '0' for b in variant)
     nb = lambda t: ';'.join('%s:%s' % (f2b(k), f2b(next(iter(v)))) for k, v in sorted(t.items())) or '-'  # noqa
     return 'hist %s %s %s %s %s %s %s %s %d %d %s' % (vbits, cfgbits, ';'.join(man) or '-', ';'.join(bkg), nb(up), nb(lo),
@@ -581,6 +615,72 @@ def _blocks(s):
     return [] if s == '-' else [parse_flist(b) for b in s.split('/')]
 
 
+BRANCHES = [
+    'pdGet: caching off', 'pdGet: cache valid, block hit', 'pdGet: cache valid, block not yet computed',
+    'pdGet: cache of another state id / empty',
+    'interpCall: empty cache', 'interpCall: hit', 'interpCall: miss, other state id', 'interpCall: miss, other grid key',
+    'interpMiss: linear', 'interpMiss: parabola', 'evalE: values', 'evalE: point outside the grid',
+    'ratioOf/gradOf: background > 0', 'ratioOf/gradOf: background = 0',
+    'step: initTrial', 'step: changeSource', 'step: grad2 answers', 'step: grad2 refused',
+    'hitOf: parabola (exact)', 'hitOf: linear exact', 'hitOf: linear isclose (unrepaired code only)',
+    'fieldStep: initNew', 'fieldStep: initSame', 'fieldStep: changeSource',
+    'fieldCalc: values reused', 'fieldCalc: field not in the events array', 'fieldCalc: remembered parameter value differs',
+    'tstep: tdmInit', 'tstep: llhInit', 'tstep: changeShg', 'tstep: evaluate without event data', 'tstep: evaluate values',
+    'tstep: evaluate raises', 'tstep: grad2 number', 'tstep: grad2 refused',
+]
+
+
+def _branches_hist(case, ops, model, br):
+    """which branches of Model/Cache.lean a compared history went through (from the model's own answers)"""
+    sp = case['spec']
+    K = sp['K']
+    U = K * (3 if sp['interp'] == 'parabola' else 2)
+    cf = _cf()
+    seen_eval, new_trial = False, True
+    d, s_ = case['d0'], case['s0']
+    for op, m in zip(ops, model):
+        if op[0] == 'I':
+            br['step: initTrial'] += 1
+            new_trial, d = True, op[1]
+        elif op[0] == 'S':
+            br['step: changeSource'] += 1
+            new_trial, s_ = True, op[1]
+        elif op[0] == 'G':
+            br['step: grad2 refused' if m == 'ERR' else 'step: grad2 answers'] += 1
+        elif op[0] == 'E':
+            m = m.partition('|')[0]
+            if m == 'XERR':
+                br['evalE: point outside the grid'] += 1
+                continue
+            br['evalE: values'] += 1
+            parts = m.split(':')
+            hit, miss, bmiss = parts[3] == '1', int(parts[4]), parts[5] == '1'
+            br['hitOf: parabola (exact)' if sp['interp'] == 'parabola' else
+               ('hitOf: linear exact' if extract_variant()[1] else 'hitOf: linear isclose (unrepaired code only)')] += 1
+            if hit:
+                br['interpCall: hit'] += 1
+            else:
+                br['interpCall: empty cache' if not seen_eval else
+                   ('interpCall: miss, other state id' if new_trial else 'interpCall: miss, other grid key')] += 1
+                br['interpMiss: ' + sp['interp']] += 1
+                if not sp['cache']:
+                    br['pdGet: caching off'] += U
+                else:
+                    if miss < U:
+                        br['pdGet: cache valid, block hit'] += U - miss
+                    if miss:
+                        br['pdGet: cache of another state id / empty' if new_trial else
+                           'pdGet: cache valid, block not yet computed'] += miss
+            if not sp.get('cache_bkg', sp['cache']):
+                br['pdGet: caching off'] += 1
+            else:
+                br['pdGet: cache valid, block hit' if not bmiss else 'pdGet: cache of another state id / empty'] += 1
+            b = cf.world_bkg(sp, d, s_)
+            br['ratioOf/gradOf: background > 0'] += int((b > 0).sum()) * K
+            br['ratioOf/gradOf: background = 0'] += int((b <= 0).sum()) * K
+            seen_eval, new_trial = True, False
+
+
 def _compare(ctx, case, impl, model_line, stats=None):
     """property-level relation between the implementation's per-op results and the model's answer line.
     Verdict: raised <-> model error; PDF-ratio values and gradients (1e-9 relative); number of spline evaluations never
@@ -591,6 +691,8 @@ def _compare(ctx, case, impl, model_line, stats=None):
     model = model_line.split(';')
     ops = model_ops(case) + ([['E'] + list(case['final'][1:])] if case['final'] and case['final'][0] == 'eval' else [])
     K = case['spec']['K']
+    if stats is not None:
+        _branches_hist(case, ops, model, stats['branches'])
     for i, (op, m) in enumerate(zip(ops, model)):
         if i >= len(impl):
             break
@@ -661,7 +763,7 @@ def _compare(ctx, case, impl, model_line, stats=None):
 
 # ---- upper layers (Model/CacheTop.lean): the real call sequences, log-lambda, ns-gradient, second-derivative number
 
-_SIZE = {0: 6, 1: 6, 2: 9, 3: 1}
+_SIZE = {0: 6, 1: 6, 2: 9, 3: 1, 4: 0}
 
 
 def top_ops(case, rng=None):
@@ -697,10 +799,10 @@ def top_ops(case, rng=None):
     return [o[:2] if o[0] == 'T' else o for o in lops], broke
 
 
-def run_top(spec, d0, s0, lops):
+def run_top(spec, d0, s0, lops, cascade=True):
     cf = _cf()
     try:
-        G = cf.build(spec, d0, s0)
+        G = cf.build(spec, d0, s0, cascade=cascade)
     except Exception as e:  # noqa
         raise MachineryError('C06 fixture: cannot build the object graph %r: %s: %s' % (spec, type(e).__name__, e))
     ns_idx = G.pmm.get_gflp_idx('ns')
@@ -726,7 +828,7 @@ def run_top(spec, d0, s0, lops):
     return res
 
 
-def _top_request(case, lops, variant):
+def _top_request(case, lops, variant, cascade=True):
     """driver line of the upper-layer model: world tokens of `_request` + event counts, a_k table, one_plus_alpha"""
     cf = _cf()
     spec = case['spec']
@@ -755,8 +857,8 @@ def _top_request(case, lops, variant):
         elif op[0] == 'G':
             toks.append('G' + f2b(op[1]))
     nev = ';'.join('%d:%d' % (d_, n) for d_, n in sorted(cf.N_OF.items()))
-    return 'top %s %s %s %s %s %s' % (' '.join(w[1:9]), nev, ';'.join(sorted(set(ak))) or '-', f2b(cf.one_plus_alpha()),
-                                      ' '.join(w[9:11]), ';'.join(toks) or '-')
+    return 'top %s %s %s %s %d %s %s' % (' '.join(w[1:9]), nev, ';'.join(sorted(set(ak))) or '-', f2b(cf.one_plus_alpha()),
+                                         1 if cascade else 0, ' '.join(w[9:11]), ';'.join(toks) or '-')
 
 
 def _closeS(a, b, scale=0.0):
@@ -807,8 +909,9 @@ def _top_compare(case, lops, impl, model_line, stats=None):
 def o_top_corr(ctx, tcase):
     """replay of an upper-layer correspondence case: {case, lops}"""
     variant = extract_variant()
-    impl = run_top(tcase['case']['spec'], tcase['case']['d0'], tcase['case']['s0'], tcase['lops'])
-    model = ctx.driver('C06', [_top_request(tcase['case'], tcase['lops'], variant)])[0]
+    casc = tcase.get('cascade', True)
+    impl = run_top(tcase['case']['spec'], tcase['case']['d0'], tcase['case']['s0'], tcase['lops'], cascade=casc)
+    model = ctx.driver('C06', [_top_request(tcase['case'], tcase['lops'], variant, cascade=casc)])[0]
     return _top_compare(tcase['case'], tcase['lops'], impl, model)
 
 
@@ -940,7 +1043,7 @@ def shrink_field(ctx, fcase):
 ORACLES = {'fresh_vs_used': o_fresh_vs_used, 'cache_onoff': o_cache_onoff, 'corr': o_corr,
            'field_fresh_vs_used': o_field_fresh_vs_used, 'field_corr': o_field_corr,
            'cache_snapshot': o_cache_snapshot, 'trace_fresh': o_trace_fresh, 'repeat_final': o_repeat_final,
-           'top_corr': o_top_corr}
+           'top_corr': o_top_corr, 'arg_forms': o_arg_forms}
 
 
 # --------------------------------------------------------------------------------------------------
@@ -977,6 +1080,8 @@ def classify(name, case, res):
     elif name == 'cache_snapshot':
         mode = ('input-written' if ('input tables' in res or 'hands out' in res) else
                 'repeated-evaluation' if ('twice in a row' in res or 'second time' in res) else 'cache-content')
+    elif name == 'arg_forms':
+        mode = 'caller-side-form'
     elif name == 'repeat_final':
         mode = 'repeated-query-' + case['final'][0]
     elif case['final'][0] == 'grad2raw':
@@ -1042,9 +1147,14 @@ def probe_cases(spec, i):
         out.append(dict(spec=sp, d0=3, s0=0, ops=[['E', 0.7, bad], ['I', 2], ['E', 2.5, p]], final=['eval_grad2', 2.5, q]))
     if i % 4 == 0:
         out.append(dict(spec=sp, d0=0, s0=1, ops=[['E', 2.5, q], ['I', 1]], final=['maximize']))
+    if i % 4 == 1:
+        # a trial in which no event survives, then a normal one (and back)
+        out.append(dict(spec=sp, d0=1, s0=0, ops=[['E', 2.5, p], ['I', 4], ['E', 2.5, p], ['I', 1]], final=['eval_grad2', 2.5, p]))
     if i % 3 == 0 or split:
         out.append(dict(spec=sp, d0=2, s0=1, ops=[['E', 2.5, p], ['E', 2.5, q]], final=['eval', 2.5, p]))
         out.append(dict(spec=sp, d0=2, s0=1, ops=[['E', 2.5, p]], final=['eval_grad2', 2.5, q]))
+    if i % 2 == 0:
+        out.append(dict(spec=sp, d0=3, s0=1, ops=[['E', 2.5, p], ['G', 0.7]], final=['eval', 0.7, below if not split else p]))
     # boundary values: a parameter value exactly on a grid point, reached from the cell below / from the cell above
     out.append(dict(spec=sp, d0=1, s0=0, ops=[['E', 2.5, below]], final=['eval', 0.7, node]))
     if i % 2 == 0:
@@ -1066,7 +1176,9 @@ def probe_cases(spec, i):
     for j, c in enumerate(out):
         r = random.Random(1000 * i + j)
         c['spec'] = dict(c['spec'], norm=r.random() < 0.5, J=2 if (r.random() < 0.5 or any(o[0] == 'H' for o in c['ops'])) else 1,
-                         dY=r.random() < 0.4, product=r.choice([None, 'first', 'second']))
+                         dY=r.random() < 0.4, product=r.choice([None, 'first', 'second']),
+                         fp_form=r.choice([None, None, 'strided', 'readonly', 'recarray']), scribble=r.random() < 0.3,
+                         cache_bkg=(not c['spec']['cache']) if r.random() < 0.3 else c['spec']['cache'])
     return out
 
 
@@ -1117,7 +1229,7 @@ def gen_case(ctx, spec, maxlen):
     for _ in range(n):
         r = rng.random()
         if r < 0.16:
-            ops.append(['I', rng.randrange(4)])
+            ops.append(['I', rng.randrange(5)])
         elif r < 0.22:
             ops.append(['R'])
         elif r < 0.28:
@@ -1150,11 +1262,13 @@ def gen_case(ctx, spec, maxlen):
         ctx.count('final repeats the last evaluated point')
     if spec.get('graph') != 'i3':
         spec = dict(spec, product=rng.choice([None, None, 'first', 'second']))
-    spec = dict(spec, reuse_fp=rng.random() < 0.5, dY=rng.random() < 0.4)
+    spec = dict(spec, reuse_fp=rng.random() < 0.5, dY=rng.random() < 0.4,
+                fp_form=rng.choice([None, None, 'strided', 'readonly', 'recarray']), scribble=rng.random() < 0.3)
     if spec.get('graph') != 'i3':
         # option interactions: non-trivial normalisation factor function of the grid PDFs; a second dataset
-        spec = dict(spec, norm=rng.random() < 0.4, J=2 if rng.random() < 0.4 else 1)
-    return dict(spec=spec, d0=rng.randrange(4), s0=rng.randrange(2), ops=ops, final=final)
+        spec = dict(spec, norm=rng.random() < 0.4, J=2 if rng.random() < 0.4 else 1,
+                    cache_bkg=(not spec['cache']) if rng.random() < 0.3 else spec['cache'])
+    return dict(spec=spec, d0=rng.randrange(5), s0=rng.randrange(2), ops=ops, final=final)
 
 
 def _split_supported():
@@ -1209,13 +1323,22 @@ def run(ctx):
     for i, sp in enumerate(i3_specs()):
         i3_cases += probe_cases(sp, i) + probe_cases(sp, i + 1)[1:4]
         i3_cases += [gen_case(ctx, sp, maxlen) for _ in range(ctx.n(4, 100))]
-    stats = {'floats': 0, 'bit_exact': 0}
+    import collections
+    stats = {'floats': 0, 'bit_exact': 0, 'branches': collections.Counter()}
     # ---- implementation runs + model requests (one driver batch)
     impls, reqs = [], []
     used_final = {}
+    snap_done = {}
     for ci, (case, _) in enumerate(cases):
         ops = list(case['ops']) + ([['E'] + list(case['final'][1:])] if case['final'][0] == 'eval' else [])
-        (impl, _f) = run_history(case['spec'], case['d0'], case['s0'], ops)
+        if case['final'][0] == 'eval':
+            # one object graph serves the model correspondence and the byte-snapshot oracle
+            impl = []
+            snap_done[ci] = o_cache_snapshot(ctx, case, collect=impl)
+            if len(impl) != len(ops):        # an early return of the oracle before the final evaluate
+                (impl, _f) = run_history(case['spec'], case['d0'], case['s0'], ops)
+        else:
+            (impl, _f) = run_history(case['spec'], case['d0'], case['s0'], ops)
         impls.append(impl)
         reqs.append(_request(case, variant))
         if case['final'][0] == 'eval':
@@ -1250,7 +1373,10 @@ def run(ctx):
             ctx.count('op:' + op[0] + (':' + '/'.join(op[2:4]) if op[0] == 'S' and len(op) >= 4 else ''))
         ctx.count('final:' + c['final'][0])
     for ci, (case, is_w) in enumerate(cases + [(c, False) for c in i3_cases]):
-        for name in ('fresh_vs_used', 'cache_onoff', 'cache_snapshot', 'trace_fresh', 'repeat_final'):
+        for name in ('fresh_vs_used', 'cache_onoff', 'cache_snapshot', 'trace_fresh', 'repeat_final', 'arg_forms'):
+            if name == 'arg_forms' and not ((case['spec'].get('fp_form') or case['spec'].get('scribble'))
+                                             and ctx.rng.random() < 0.4):
+                continue
             if name == 'repeat_final' and case['final'][0] == 'eval':
                 continue            # evaluate twice in a row is clause (3) of cache_snapshot
             if name == 'cache_onoff' and (case['spec'].get('graph') == 'i3' or not (is_w or ctx.rng.random() < 0.25)):
@@ -1258,7 +1384,9 @@ def run(ctx):
             if name == 'trace_fresh' and (case['spec'].get('graph') != 'i3' or not any(op[0] == 'E' for op in case['ops'])):
                 continue
             ctx.count('oracle:' + name)
-            if name == 'fresh_vs_used' and ci in used_final:
+            if name == 'cache_snapshot' and ci in snap_done:
+                res = snap_done[ci]
+            elif name == 'fresh_vs_used' and ci in used_final:
                 res = o_fresh_vs_used(ctx, case, used=used_final[ci])
             else:
                 res = ORACLES[name](ctx, case)
@@ -1309,7 +1437,7 @@ def run(ctx):
         case = dict(case, spec=dict(case['spec'], J=1, product=None))     # the modelled upper layers: one dataset, no product
         (lops, broke) = top_ops(case, ctx.rng)
         if lops:
-            tcases.append((case, lops, broke))
+            tcases.append((case, lops, broke, True))
     # directed: the documented call order violated (trial data managers without data fields, equal-size data sets)
     for i, sp in enumerate(specs):
         if sp['fields'] != 'none':
@@ -1317,18 +1445,27 @@ def run(ctx):
         pts = points(sp)
         p = [pts['p']] * sp['K']
         c = dict(spec=dict(sp, J=1, product=None, dY=(i % 2 == 1), norm=(i % 4 >= 2)), d0=0, s0=0, ops=[], final=['maximize'])
-        tcases.append((c, [['E', 2.5, p], ['T', 1], ['E', 2.5, p], ['G', 2.5]], True))                 # cascade forgotten
-        tcases.append((c, [['T', 1], ['E', 0.7, p], ['L'], ['E', 0.7, p], ['G', 0.7]], True))          # cascade too late
+        tcases.append((c, [['E', 2.5, p], ['T', 1], ['E', 2.5, p], ['G', 2.5]], True, True))                 # cascade forgotten
+        tcases.append((c, [['T', 1], ['E', 0.7, p], ['L'], ['E', 0.7, p], ['G', 0.7]], True, True))          # cascade too late
         if i % 2 == 0:
-            tcases.append((c, [['E', 2.5, p], ['L'], ['T', 1], ['E', 2.5, p], ['C', 1], ['E', 2.5, p]], True))   # cascade too early
-    timpl = [run_top(c['spec'], c['d0'], c['s0'], lops) for c, lops, _ in tcases]
-    tmodel = ctx.driver('C06', [_top_request(c, lops, variant) for c, lops, _ in tcases])
+            tcases.append((c, [['E', 2.5, p], ['L'], ['T', 1], ['E', 2.5, p], ['C', 1], ['E', 2.5, p]], True, True))   # too early
+        else:
+            # the object graph as constructed, before its first cascade: an evaluation is refused, the cascade repairs it
+            tcases.append((c, [['G', 2.5], ['E', 2.5, p], ['L'], ['E', 2.5, p], ['G', 2.5]], True, False))
+    timpl = [run_top(c['spec'], c['d0'], c['s0'], lops, cascade=ca) for c, lops, _, ca in tcases]
+    tmodel = ctx.driver('C06', [_top_request(c, lops, variant, cascade=ca) for c, lops, _, ca in tcases])
     t_seen = set()
-    for (c, lops, broke), i, m in zip(tcases, timpl, tmodel):
+    for (c, lops, broke, ca), i, m in zip(tcases, timpl, tmodel):
+        ctx.count('branch:tstep.evaluate ' + ('no event data yet (evd = none)' if not ca else 'event data present'))
         ctx.case(key=('top', c['spec'], c['d0'], c['s0'], lops), desc=None)
         ctx.count('top:' + ('call order violated on purpose' if broke else 'complete call sequences'))
-        for o in lops:
+        for o, a in zip(lops, m.split(';')):
             ctx.count('top:call ' + o[0])
+            stats['branches'][{'T': 'tstep: tdmInit', 'L': 'tstep: llhInit', 'C': 'tstep: changeShg'}.get(o[0]) or (
+                ('tstep: grad2 refused' if a == 'REF' else 'tstep: grad2 number') if o[0] == 'G' else
+                ('tstep: evaluate values' if a.startswith('V') else
+                 ('tstep: evaluate without event data' if (not ca and not any(x[0] == 'L' for x in lops[:lops.index(o)]))
+                  else 'tstep: evaluate raises')))] += 1
         d = _top_compare(c, lops, i, m, stats)
         if d:
             suspicious.append((c, i, m, d))
@@ -1340,7 +1477,7 @@ def run(ctx):
                 if res:
                     ctx.violation('fresh_vs_used', c, res, signature=classify('fresh_vs_used', c, res), kind='history')
                 else:
-                    ctx.violation('top_corr', {'case': c, 'lops': lops}, 'upper-layer model and implementation disagree (%s)%s' % (
+                    ctx.violation('top_corr', {'case': c, 'lops': lops, 'cascade': ca}, 'upper-layer model and implementation disagree (%s)%s' % (
                         d, ' on a call sequence that violates the documented order (the model mirrors the code as it is)' if broke else
                         ' but no property oracle fails on this history'), kind='correspondence',
                         relation='log-lambda, ns-gradient, second-derivative number 1e-9 relative; ratios 1e-9; raised/refused exact',
@@ -1359,6 +1496,20 @@ def run(ctx):
         ctx.count('field:len=%d' % len(c['ops']))
         res = o_field_fresh_vs_used(ctx, c)
         d = _field_compare(c, i, m)
+        in_events, prev = False, None
+        for o, a in zip(list(c['ops']) + [['C', c['final']]], m.split(';')):
+            if o[0] == 'N':
+                stats['branches']['fieldStep: initNew'] += 1
+                in_events = False
+            elif o[0] == 'R':
+                stats['branches']['fieldStep: initSame'] += 1
+            elif o[0] == 'S':
+                stats['branches']['fieldStep: changeSource'] += 1
+            else:
+                stats['branches']['fieldCalc: values reused' if a.startswith('0:') else
+                                  ('fieldCalc: field not in the events array' if not in_events else
+                                   'fieldCalc: remembered parameter value differs')] += 1
+                in_events = True
         if res and not f_reported:
             f_reported = True
             small = shrink_field(ctx, c)
@@ -1371,6 +1522,8 @@ def run(ctx):
                           impl_output=_short(i), model_output=m[:300], signature='C06/field_corr/' + ('recompute' if 'called' in d else 'values'),
                           no_failing_input=True)
     ctx.extra['correspondence_disagreements'] = len(suspicious)
+    ctx.extra['counts'] = {b: int(stats['branches'].get(b, 0)) for b in BRANCHES}
+    ctx.extra['zero_hit_branches'] = [b for b in BRANCHES if not stats['branches'].get(b)]
     ctx.extra['floats_compared'] = stats['floats']
     ctx.extra['floats_bit_exact'] = stats['bit_exact']
     ctx.extra['model_cached_ne_pure'] = stats.get('model_cached_ne_pure', 0)
@@ -1390,12 +1543,12 @@ def _count_classes(ctx, case):
     ctx.count('class:interpolation=' + sp['interp'])
     ctx.count('class:sources K=%d%s' % (sp['K'], ' per-source parameters' if sp.get('split') else ''))
     G = _grid_only(sp)
-    size = {0: 6, 1: 6, 2: 9, 3: 1}
+    size = _SIZE
     d, prev = case['d0'], None
     evals = list(case['ops']) + ([['E'] + list(case['final'][1:])] if case['final'][0] in ('eval', 'eval_grad2') else [])
     for op in evals:
         if op[0] in ('I', 'M'):
-            ctx.count('class:new trial, data set %s, %s size' % ('ABCD'[op[1]], 'equal' if size[op[1]] == size[d] else 'different'))
+            ctx.count('class:new trial, data set %s, %s size' % ('ABCDE'[op[1]], 'equal' if size[op[1]] == size[d] else 'different'))
             d = op[1]
         elif op[0] == 'R':
             ctx.count('class:new trial, same events array')
